@@ -705,6 +705,12 @@ class ExprMixin:
             return [Ev(st, BoolV(z3.Or(a.t, b.t)))]
         if isinstance(op, ast.Sub) and isinstance(a, SetV) and isinstance(b, SetV):
             return a.difference(self, b, st)
+        if isinstance(op, (ast.Sub, ast.BitOr, ast.BitAnd)) and isinstance(a, SymSetV) and isinstance(b, (SymSetV, SetV)):
+            return [Ev(st, SymSetV(z3.Const(fresh_name("symset"), Py)))]      # some set (contents unspecified)
+        if hasattr(a, "binop"):
+            r = a.binop(self, op, b, st)
+            if r is not None:
+                return r
         raise OutOfReach("binary op %s on %s, %s (%s)" % (type(op).__name__, a.kind, b.kind,
                                                          getattr(node, "lineno", "?")))
 
@@ -1004,6 +1010,21 @@ class OneShotV(V):
 
     def iter_items(self, E, st):
         return E.iter_items(self.inner, st) if self.inner is not None else None
+
+
+class SymSetV(V):
+    """A set of unknown contents (set(x) of a symbolic iterable, differences / unions of such): only its existence is
+    modelled; list(s) is some list."""
+    kind = "symset"
+
+    def __init__(self, t):
+        self.t = t
+
+    def to_list(self, E, st):
+        from . import ghost as _g
+        n = z3.Int(fresh_name("n_members"))
+        st.assume(n >= 0)
+        return [Ev(st, _g.new_pyarr(st, None, n))]
 
 
 class SetV(V):
